@@ -184,6 +184,10 @@ def geo_worlds(tier: str, seed: int, *, convs=W.ALL_CONVS, big: bool = True) -> 
             dict(ny=2, nx=3, shape="skew"), dict(ny=3, nx=2, shape="rect", holes=[(0, 0)]),
             dict(ny=3, nx=3, shape="skew2", holes=[(1, 1)]), dict(ny=1, nx=2, shape="skew"),
             dict(ny=3, nx=4, shape="skew", holes=[(0, 3), (1, 3), (2, 0)]),
+            # a block of holes in a corner whose rim nodes keep their coordinates: the corner node is the extreme point of
+            # the node grid but a corner of no cell
+            dict(ny=3, nx=3, shape="skew", holes=[(0, 0), (0, 1), (1, 0), (1, 1)], orphan_nodes=True),
+            dict(ny=3, nx=3, shape="skew2", holes=[(1, 1), (1, 2), (2, 1), (2, 2)], orphan_nodes=True),
         ]
         if not quick:
             for _ in range(6):
@@ -214,6 +218,9 @@ def geo_worlds(tier: str, seed: int, *, convs=W.ALL_CONVS, big: bool = True) -> 
     for k, w in enumerate(out):
         if w["conv"] == "ugrid" and k % 2 == 0:
             w["first_var"] = "eta"      # a variable with the (size 2) time dimension declared before the mesh variables
+    for k, w in enumerate(out):
+        if k % 4 == 3:
+            w["decoy"] = True           # see worlds.bind
     # other legal names for dimensions and coordinate variables (every third world)
     NAMES = {"cf1d": [{"lat": "latitude", "lon": "longitude", "ydim": "latitude", "xdim": "longitude", "lat_bounds": "latitude_bounds", "lon_bounds": "longitude_bounds"},
                       {"lat": "nav_lat", "lon": "nav_lon", "ydim": "rows", "xdim": "cols"}],     # coordinates that are not dimension coordinates
